@@ -251,11 +251,18 @@ class Session(object):
             rec.fired_chunk = self.chunk_no
             rec.fired_stage = self.stage
         self.trace.append(("F", rec.idx, self.stage))
+        chained = None
         for other in list(self.pending_when):
             w = other.spec.get("when", ("start",))
             if w[0] == "fire" and w[1] == rec.idx:
                 self.pending_when.remove(other)
                 self.submit(other, "callback")
+                if other.spec.get("chain") and chained is None and other.deferred is not None \
+                        and not other.spec.get("late_watch"):
+                    chained = other.deferred
+        # d.addCallback(lambda _: proto.queue_command(...)): the callback hands the new command's
+        # Deferred back, so this command's own callback chain pauses until that one is answered
+        return chained
 
     def submit_due(self):
         for other in list(self.pending_when):
